@@ -986,12 +986,18 @@ static int write_char(void *context, cif_value_tp *char_value, int allow_text) {
                         result = CIF_DISALLOWED_VALUE;
                     } else {
                         /* write as a text block, possibly with line-folding and/or prefixing  */
-                        result = write_text(context, text, analysis.length,
-                                ((analysis.length_first >= LINE_LENGTH(context))
+                        int fold = ((analysis.length_first >= LINE_LENGTH(context))
                                         || (analysis.length_max > LINE_LENGTH(context))
                                         || analysis.has_reserved_start
-                                        || (analysis.max_semi_run >= (LINE_LENGTH(context) - 1))),
-                                analysis.contains_text_delim);
+                                        || (analysis.max_semi_run >= (LINE_LENGTH(context) - 1)));
+                        /*
+                         * Folding can bring any semicolon to the beginning of a line, where it must not be mistaken
+                         * for a text delimiter, and it cannot split a long run of semicolons unless they are protected
+                         * by a prefix
+                         */
+                        int prefix = (analysis.contains_text_delim || (fold && (analysis.max_semi_run > 0)));
+
+                        result = write_text(context, text, analysis.length, fold, prefix);
                     }
                     break;
                 default: /* unexpected value */
